@@ -177,6 +177,10 @@ func c07Case(t *T) {
 			t.Fail("match-route-differs", "step %d %s %q: without cache -> route %q, with cache(cap %d) -> route %q", step, q.m, q.p, n1, capacity, n2)
 			return
 		}
+		if (p1 == nil) != (p2 == nil) {
+			t.Fail("match-params-nilness-differs", "step %d %s %q (route %q): without cache Params is nil=%v, with cache(cap %d) nil=%v", step, q.m, q.p, n1, p1 == nil, capacity, p2 == nil)
+			return
+		}
 		if !sameParams(copyParams(p1), copyParams(p2)) {
 			t.Fail("match-params-differ", "step %d %s %q (route %q): without cache params {%s}, with cache(cap %d) {%s}", step, q.m, q.p, n1, fmtParams(copyParams(p1)), capacity, fmtParams(copyParams(p2)))
 			return
